@@ -498,6 +498,12 @@ def unique_cases(draw):
         start = draw(st.integers(0, len(cand) - extra_n))
         step_ok = cand[start:start + extra_n]
         full['values'] = list(draw(st.permutations(have + step_ok)))
+        if kind == 'list' and draw(st.integers(0, 2)) == 0:
+            # an allowed-value list that names some values more than once (it still denotes the same set)
+            vals = full['values']
+            for _ in range(draw(st.integers(1, 4))):
+                vals.insert(draw(st.integers(0, len(vals))), vals[draw(st.integers(0, len(vals) - 1))])
+            full['repeats'] = True
     else:
         # constructed precondition: the span of x admits n distinct values
         if ints:
@@ -561,6 +567,7 @@ def run_unique(case, ctx):
     full = _unique_full(case['full'])
     kind = case['full']['kind']
     ctx.label('full:' + kind + ('/int' if case['full'].get('type') == 'int' else ''), 'via:' + case['via'])
+    if case['full'].get('repeats'): ctx.label('full:list-with-repeated-values')
     input_labels(ctx, case)
     if case['via'] == 'dec':
         fn = C.impose_unique(full)(ident)
